@@ -122,6 +122,8 @@ def minimize_counterfactual(variable: Variable, graph: NxMixedGraph) -> Variable
         for intervention in variable.interventions
         if intervention.get_base() in treatment_variables
     )
+    if not treatment_interventions:
+        return Variable(name=variable.name, star=variable.star)
     # RJC: [correa22a]_ isn't clear about whether the value of a minimized variable shoudl get preserved.
     #      But they write: "Given a counterfactual variable Y_x some values in $\mathbf x$ may be causally
     #      irrelevant to Y once the rest of $\mathbf x$ is fixed." There's nothing in there to suggest that
